@@ -810,6 +810,16 @@ func streamDebfuzz(g *core.G) {
 			ms[k].Data = compress(ext, tarHugeSize(inner, nm, 1<<uint(bits)))
 			data = buildAr(ms)
 		case 0: // decoy / duplicate members
+			if r.Chance(1, 6) {
+				// a member that claims a compression it does not have (the decompressor's constructor
+				// or first read fails): an error, not a panic
+				k := 1 + r.Intn(2)
+				ext := r.Pick([]string{".xz", ".gz", ".zst", ".bz2", ".lzma"})
+				ms[k].Name = []string{"control.tar", "data.tar"}[k-1] + ext
+				ms[k].Data = []byte(r.Pick([]string{"", "not compressed at all", "\xfd7zXZ\x00garbage", "\x1f\x8b\x08garbage", "\x28\xb5\x2f\xfdgarbage", "BZh9garbage"}))
+				data = buildAr(ms)
+				break
+			}
 			d := ms[r.Intn(len(ms))]
 			if r.Bool() {
 				d.Name = r.Pick([]string{"control.tar.zz", "data.tar.zz", "control.x", "data.", "control.tar.gz", "data.tar", "control.new.tar", "data.new.tar", "control.sig", "data.list", "control.old.tar.gz"})
